@@ -1,8 +1,8 @@
-CONSTANTS FailureThreshold = 5  SuccessThreshold = 2  HalfOpenRequests = 3  OpenDuration = 600  Ticks = {3, 601}  MaxLen = 0
+CONSTANTS FailureThreshold = 5  SuccessThreshold = 2  HalfOpenRequests = 3  OpenDuration = 600  Ticks = {3, 601}  MaxLen = 0  Races = {}
 CONSTANT KnownDeviations = ${KnownDeviations}
 SPECIFICATION TraceSpec
 CONSTRAINT HW
 INVARIANT TypeOK
-PROPERTIES OpensOnlyAfterThreshold HoldsWhileOpen ProbeAdmitted BoundedProbes ProbeCounted SuccCloses FailReopens ClosedAdmits SuccClears
+PROPERTIES OpensOnlyAfterThreshold HoldsWhileOpen ProbeAdmitted BoundedProbes ProbeCounted SuccCloses FailReopens ClosedAdmits SuccClears RaceBounded
 POSTCONDITION Accepted
 CHECK_DEADLOCK FALSE
